@@ -225,8 +225,10 @@ func (p *Prog) indexFns() {
 		}
 	}
 	p.aliasRegistryFns()
+	p.aliasFuncValues()
 	p.canonReceivers()
 	p.alignRoles()
+	p.hoistHelperCalls()
 	sort.Slice(p.Fns, func(i, j int) bool { return p.Fns[i].Name < p.Fns[j].Name })
 }
 
